@@ -241,7 +241,7 @@ def replay_step(res):
             ids.append("%s=%s" % (k.lstrip("idn"), v[2:]))
     cmd = "wkdq %s %d %d %d %s %s %s" % (fn, l, int(ce["signatures"]), int(ce["omit_all"]), pc, lc, " ".join(ids))
     out = replay.run([cmd])[0]
-    want = "l=%d idx=%s decrypt=OK" % (len(exp_free), "".join("%d," % i for i in exp_free))
+    want = "l=%d idx=%s decrypt=OK a0=OK b=OK bsig=OK" % (len(exp_free), "".join("%d," % i for i in exp_free))
     ce["native_replay"] = {"command": cmd, "native_output": out, "expected": want}
     return out.strip() != want
 
